@@ -49,11 +49,14 @@ def callback_sets():
     }
 
 
+_spaces = None
+
+
 def run_variant(fn_maker, cb, label):
     with stubs.prng_stubs():
         tr = fn_maker(cb, label)
     it = Interp()
-    S = tr.symbols(it)
+    S = tr.symbols(it, given=_spaces(tr, it) if _spaces else None)
     out = tr.run(it, S)
     return tr, it, S, out
 
@@ -65,6 +68,9 @@ def shared(out_a, out_b):
 def check_algo(ck, aname, algo, env, mkpol):
     pol = mkpol()
     cbs = callback_sets()
+    global _spaces
+    from props.common import concrete_spaces
+    _spaces = lambda tr, it: concrete_spaces(tr, it, st_env=env, st_policy=pol, st_target_policy=pol, env=env, pol=pol)
 
     def mk_iter(cb, label):
         st = eqx.filter_eval_shape(lambda k: algo.reset(env, pol, key=k, callback=cb), jr.key(0))
